@@ -510,6 +510,34 @@ def gen_ccw(rng, N=1):
     return sc
 
 
+def gen_ppccw(rng):
+    """pre-emptive priorities with resume / restart where the victims change class while they wait to be served again
+    (two low-priority classes that turn into each other): the remaining / repeated service time must survive the
+    class change"""
+    K = 3
+    sc = gen_tandem(rng, N=1, K=K)
+    sc["prio"] = [0, 1, 1]
+    sc["syscap"] = INF
+    nd = sc["nodes"][0]
+    nd["qcap"] = INF
+    nd["c"] = rng.choice([1, 1, 2])
+    nd["pp"] = rng.choice([1, 2, 1, 2, 3])
+    cct = [[[] for _ in range(K)] for _ in range(K)]
+    cct[1][2] = samples(rng, 1, 4, 2)
+    if rng.random() < 0.6:
+        cct[2][1] = samples(rng, 1, 4, 2)
+    sc["cct"] = cct
+    sc["svcS"][0][0] = samples(rng, 1, 3, 2)
+    sc["svcS"][0][1] = samples(rng, 4, 9, 2)
+    sc["svcS"][0][2] = samples(rng, 3, 8, 2)
+    sc["arrS"][0][0] = samples(rng, 2, 5, 2)
+    sc["arrS"][0][1] = samples(rng, 2, 6, 2)
+    sc["arrS"][0][2] = samples(rng, 3, 9, 2) if rng.random() < 0.5 else []
+    sc.pop("batchS", None)
+    sc["T"] = rng.randint(20, 45)
+    return sc
+
+
 def gen_trk(rng):
     base = rng.choice([gen_tandem, gen_tandem, gen_cls, gen_renege, gen_ccw, lambda r: gen_prio(r, preempt=True), gen_core1])
     sc = base(rng)
@@ -868,6 +896,7 @@ def gen_stopcount(rng):
 
 
 FAMILIES = {
+    "ppccw": gen_ppccw,
     "eps": gen_eps,
     "stopcount": gen_stopcount,
     "trk": gen_trk,
@@ -1013,6 +1042,14 @@ def mc_instances(name, tier):
                         "arrS": [[[1, 2], [2]]], "svcS": [[[2, 3], [1]]], "cct": [[[], [1, 2]], [[], []]],
                         "route": [tm([[0]]), tm([[0]])], "T": 9 if not big else 11})
         return [(fam, 5 if not big else 6)]
+    if name == "ppccw":
+        fam = []
+        for pp in [1, 2, 3]:
+            fam.append({"N": 1, "K": 3, "prio": [0, 1, 1], "nodes": [{"c": 1, "pp": pp}],
+                        "arrS": [[[3, 4], [1], []]], "svcS": [[[1, 2], [4, 5], [3]]],
+                        "cct": [[[], [], []], [[], [], [1, 2]], [[], [2], []]],
+                        "route": [tm([[0]]), tm([[0]]), tm([[0]])], "T": 12 if not big else 14})
+        return [(fam, 6 if not big else 7)]
     if name == "ps":
         fam = []
         for cap, R in [(1, 1), (2, 1), (INF, 1), (2, 2), (3, 2)]:
